@@ -196,7 +196,7 @@ def check_one(chk, drv, cfg):
 
 def gen(rng, it, quick):
     fam = rng.random()
-    p0, p1 = rng.choice([(1, 1), (2, 1), (1, 2), (2, 2), (3, 2), (2, 3), (3, 1), (1, 3)] + ([] if quick else [(3, 3), (4, 2), (2, 4)]))
+    p0, p1 = rng.choice([(1, 1), (2, 1), (1, 2), (2, 2), (3, 2), (2, 3), (3, 1), (1, 3), (4, 1), (1, 4)] + ([] if quick else [(3, 3), (4, 2), (2, 4), (5, 1), (1, 5)]))
     if fam < 0.4:
         groups, nprocs, nd = DRIVER_GROUPS, [[p0, p1], [p0], [p1]], 3
     elif fam < 0.55:
@@ -229,6 +229,10 @@ def gen(rng, it, quick):
         nprocs = [nprocs[i] for i in perm]
     world = p0 * p1
     shape = lu.rand_shape(rng, nd, [p0, p1], hi=6)
+    pm = max(p0, p1)
+    if pm >= 4 and rng.random() < 0.7:
+        # many processes along one direction and extents that leave SEVERAL long and SEVERAL short blocks (2 <= n mod p <= p-2)
+        shape = [rng.choice([n for n in range(pm, 3 * pm) if 2 <= n % pm <= pm - 2]) for _ in range(nd)]
     if rng.random() < 0.2:
         # fewer points than processes along one to three dimensions: some ranks own empty blocks in some or all layouts
         # (findings F16a/F16b: constructor IndexError on such a rank only; rank-dependent early exit of transpose)
@@ -239,6 +243,21 @@ def gen(rng, it, quick):
     steps = [(rng.choice(names), rng.random() < 0.5) for _ in range(rng.randint(2, 6))]
     return {'groups': groups, 'nprocs': nprocs, 'ext': shape, 'start': rng.choice(names), 'steps': steps, 'world': world,
             'dtype': rng.choice(['int64', 'float64', 'complex128']), 'policy': rng.choice(['inorder', 'reverse', 'random']), 'seed': it}
+
+
+def twin(cfg):
+    """the same layout NAMES on the mirrored process grid: in every group on two process axes the first two entries of each ordering are
+    swapped and the two process counts exchanged.  Used right after `cfg` in the same process: nothing a swapper computed (gather /
+    scatter axes, routes, buffer sizes) may be remembered under the layout names alone"""
+    groups, nprocs = [], []
+    for g, n in zip(cfg['groups'], as_lists(cfg['nprocs'])):
+        if len(n) == 2:
+            groups.append({k: [o[1], o[0]] + list(o[2:]) for k, o in g.items()})
+            nprocs.append([n[1], n[0]])
+        else:
+            groups.append({k: list(o) for k, o in g.items()})
+            nprocs.append(list(n))
+    return dict(cfg, groups=groups, nprocs=nprocs, _progress={})
 
 
 # corpus: the witness of finding F9 (repaired by a fix: commit, see KNOWN_FINDINGS.json) and two look-alikes that were always fine
@@ -271,7 +290,10 @@ def run(chk):
             for c in CORPUS:                                     # corpus first
                 check_one(chk, drv, dict(c))
             for it in range(chk.n(160, 2500)):
-                check_one(chk, drv, gen(chk.rng, it, chk.quick()))
+                cfg = gen(chk.rng, it, chk.quick())
+                check_one(chk, drv, cfg)
+                if it % 4 == 0:
+                    check_one(chk, drv, twin(cfg))
     finally:
         drv.close()
     chk.assumptions = ['MPI Allgather / Alltoall semantics as implemented by the simulated MPI (byte counts from the buffers, like (buf, MPI.DOUBLE))',
